@@ -11,6 +11,7 @@ import procoracle as po
 FAMILIES = ['process', 'fit', 'membrane']
 BRIDGES = ['br_nonideal_', 'br_pfcall_', 'br_pfmul', 'br_measurements_', 'br_ea_', 'br_from_array_']
 PROPS_V = 'Props/C05.v'
+EXTRA_TARGETS = ['Model/NumCheck.vo']
 BUDGET = {'quick': 10, 'thorough': 150}
 ORACLE_RULE = ('single- and multi-temperature synthetic curve sets with composition-dependent permeances (mass or mole fraction curves) x with/without initial '
                'permeances x modelling temperature equal to / different from the curve temperature (differences 0, 1e-9..60 K log-uniform) x permeate modes x '
@@ -108,6 +109,14 @@ def oracle(rng, tier):
             yield {'kind': cfg['kind'] + ':raised', 'case': po.describe(cfg), 'ok': True, 'detail': '', 'nontrivial': False}
             continue
         yield {'kind': '%s:%dcurves:%s' % (cfg['kind'], cfg['ncurves'], 'ip' if cfg['ip'] else 'noip'), 'case': po.describe(cfg), 'ok': ok, 'detail': detail}
+
+
+def correspondence(tier, seed):
+    import corr_numeric
+    budget = {'process': 24}
+    if tier == 'thorough':
+        budget = {k: v * 12 for k, v in budget.items()}
+    return corr_numeric.run(seed, budget, nmax=30 if tier == 'quick' else 200, tag='C05')
 
 
 def replay(rep):
